@@ -305,6 +305,12 @@ func RuleD5(c *Ctx) {
 	c.FloorN("D5", 4, len(wev), "serialised fields")
 }
 
+// RuleD5Point — only the stream reader of points: exactly CompressedSize bytes, through the validating decoder.
+func RuleD5Point(c *Ctx) {
+	c.Rule("D5", "stream reader of points: common.ReadPoint fills a CompressedSize buffer with one io.ReadAtLeast/ReadFull of the full size (a short read is an error) and decodes it once with the validating banderwagon.(*Element).SetBytes")
+	c.d5Reader("ReadPoint", c.constOf("banderwagon", "CompressedSize"), func(f *ssa.Function) bool { return core.IsMethod(f, "/banderwagon", "Element", "SetBytes") }, "banderwagon.(*Element).SetBytes (validating)")
+}
+
 func (c *Ctx) d5Reader(name string, size int64, isDecoder func(*ssa.Function) bool, decName string) {
 	fn := c.P.Fn("common", "", name)
 	if fn == nil {
